@@ -864,7 +864,7 @@ LOOPED = [
 ]
 # symbol_version_table needs three sections to have .gnu.version, _r and _d together: its fault-free stream/slice pairing runs on
 # tables of up to 3 entries; the fault-schedule run stays at 2 entries (path count)
-K_OF = {"symbol_version_table": 3}
+K_OF = {}           # set to {"symbol_version_table": 3} by lemma_L7symver3 (thorough tier: ~15 min)
 
 
 def query_arg():
@@ -913,6 +913,21 @@ def strtab_pair_bytes(v):
     return v.f[1]
 
 
+def distinct_ranges(cls, base_scope):
+    """additional scoping for the 3-entry stream run: the sections' data ranges are pairwise different keys (so that a range loaded
+    earlier in the same call is never a cache hit for a later one; equal ranges are covered by the 2-entry run and by L1)"""
+    def scope(ctx, obj, st):
+        cs = [base_scope(ctx, obj, st)]
+        if st["sh"] is not None:
+            n = z3.simplify(num_sections(cls, st)).as_long()
+            ts = [shdr_terms(cls, st, i) for i in range(n)]
+            for i in range(n):
+                for j in range(i + 1, n):
+                    cs.append(z3.Or(ts[i]["sh_offset"] != ts[j]["sh_offset"], ts[i]["sh_size"] != ts[j]["sh_size"]))
+        return z3.And(cs)
+    return scope
+
+
 def lemma_L7(prog, res, classes=("ELF64",)):
     for (method, exact) in LOOPED:
         for cls in classes:
@@ -922,8 +937,9 @@ def lemma_L7(prog, res, classes=("ELF64",)):
                 try:
                     # with 3-entry tables the stream side starts from the (freshly opened) empty cache: an arbitrary cache pre-state
                     # multiplies every range load by its hit/miss alternatives; arbitrary pre-states are covered by the 2-entry run below
-                    sp, _, sst = run_file_method(prog, "stream", method, cls, ws, wp, scope=no_compressed_sections(cls), extra_args=xa, k_sh=K_OF.get(method), empty_cache=bool(K_OF.get(method)))
-                    bp, _, bst = run_file_method(prog, "bytes", method, cls, ws, wp, scope=no_compressed_sections(cls), extra_args=xa, k_sh=K_OF.get(method))
+                    sc3 = distinct_ranges(cls, no_compressed_sections(cls)) if K_OF.get(method) else no_compressed_sections(cls)
+                    sp, _, sst = run_file_method(prog, "stream", method, cls, ws, wp, scope=sc3, extra_args=xa, k_sh=K_OF.get(method), empty_cache=bool(K_OF.get(method)))
+                    bp, _, bst = run_file_method(prog, "bytes", method, cls, ws, wp, scope=sc3, extra_args=xa, k_sh=K_OF.get(method))
                     fp, fsol, fst = run_file_method(prog, "stream", method, cls, ws, wp, fault_free=False, tag="sf" + method[:5], scope=no_compressed_sections(cls), extra_args=xa)
                 except sym.Unsupported as u:
                     res.add(f"L7.encode({name})", "inconclusive", str(u))
@@ -1474,3 +1490,17 @@ def lemma_L7strtab(prog, res):
         lemma_L7(prog, res)
     finally:
         LOOPED = saved
+
+
+
+def lemma_L7symver3(prog, res):
+    """stream vs slice symbol_version_table on 3-entry tables (.gnu.version + _r + _d together), fault-free, empty cache, pairwise
+    distinct section ranges"""
+    global LOOPED, K_OF
+    saved = (LOOPED, K_OF)
+    LOOPED = [("symbol_version_table", True)]
+    K_OF = {"symbol_version_table": 3}
+    try:
+        lemma_L7(prog, res)
+    finally:
+        LOOPED, K_OF = saved
